@@ -69,8 +69,10 @@ class MarginalRayHeightSolve(BaseSolve):
     def apply(self):
         """Applies the MarginalRayHeightSolve to the optic."""
         ya, ua = self.optic.paraxial.marginal_ray()
+        # moving the surface by dz changes the ray height on it by dz times the
+        # slope of the ray arriving at the surface (i.e. after the previous one)
         offset = float(((self.height - ya[self.surface_idx]) /
-                        ua[self.surface_idx])[0])
+                        ua[self.surface_idx - 1])[0])
 
         # shift current surface and all subsequent surfaces
         for surface in self.optic.surface_group.surfaces[self.surface_idx:]:
